@@ -113,3 +113,11 @@ add("C12",
 ENGINE_S += ["C10", "C12"]
 ENGINE_V += ["C10"]
 ENGINE_F += ["C10"]
+
+add("C14",
+    "Contract on Curve.clean / knot_clean / degree_clean: for a minimal curve with symbolic generic control points Q (precondition A9: generic with margin) refined "
+    "by a history of knot insertions and degree elevations (spec matrices), every call order returns exactly (U_Q, Q) and a second clean() changes nothing; "
+    "function preservation for arbitrary points is carried by the success-path bounds of C05/C06. " + S_NOTE,
+    "DESIGN.md 5/C14", COMMON_TRUST + " Linalg.* run-time monitored (A4); A9 fixes the refusal branch for non-zero error forms.",
+    "contracts on the real functions; real code on symbolic control points over concrete knot vectors, branch fixed by the stated genericity precondition (bounded in shape and history)")
+ENGINE_S += ["C14"]
